@@ -45,7 +45,26 @@ WhyFold(e) ==   \* e.ann = iswfc(cp); e.n = towfc_s result; e.wn = characters wc
   ELSE IF e.ann = 0 /\ e.n > 0 THEN "towfc_maps_but_iswfc_says_no"
   ELSE IF e.wrc = 0 /\ e.wn > (IF e.ann = 0 THEN 1 ELSE e.ann) * 3 THEN "wcsfc_longer_than_announced"
   ELSE ""
-Why(e) == IF e.op = "n" THEN WhyNorm(e) ELSE WhyFold(e)
+\* wcsfc_s on a string (op "w"): e.each[i] = what wcsfc_s emits for the i-th character alone.  The documentation asks for room
+\* for 5 elements ("dmax shall not be smaller than 5"); the library applies that to what is left at every character.
+RECURSIVE SumSeq(_)
+SumSeq(q) == IF q = <<>> THEN 0 ELSE Head(q) + SumSeq(Tail(q))
+WhyFoldStr(e) ==
+  LET total == SumSeq(e.each)
+  IN IF e.fault = "w" THEN "write_fault" ELSE IF e.fault # "none" THEN "fault_" \o e.fault
+     ELSE IF ~e.frame_ok THEN "write_outside_dest"
+     ELSE IF \E i \in 1..Len(e.each) : e.each[i] < 0 THEN ""          \* a character the function rejects by itself: not judged here
+     ELSE IF e.rc = 0 THEN
+          (IF e.len + 1 > e.dmax THEN "no_room_accepted"
+           ELSE IF e.post[e.len + 1] # 0 THEN "unterminated"
+           ELSE IF \E i \in 1..e.len : e.post[i] = 0 THEN "null_inside_result"
+           ELSE IF e.len > total THEN "longer_than_the_characters_alone"
+           ELSE IF e.hn # 0 THEN "handler_on_success"
+           ELSE IF e.slack = 1 /\ ~AllZero(e.post, e.len + 1) THEN "stale_slack" ELSE "")
+     ELSE (IF e.dmax >= total + 5 THEN "spurious_failure"
+           ELSE IF e.hn # 1 THEN "report"
+           ELSE IF e.dmax >= 1 /\ e.post[1] # 0 THEN "dest_not_cleared" ELSE "")
+Why(e) == IF e.op = "n" THEN WhyNorm(e) ELSE IF e.op = "w" THEN WhyFoldStr(e) ELSE WhyFold(e)
 TInit == l = 1 /\ bad = <<>>
 TNext == /\ l <= Len(T) /\ l' = l + 1
          /\ LET w == Why(T[l]) IN bad' = IF w = "" THEN bad ELSE Append(bad, [i |-> T[l].id, why |-> w, dev |-> DevNorm(T[l])])
